@@ -66,7 +66,7 @@ def collinear_case(rng, kind, n):
 
 def profile_volume(t):
     """true union volume of a collinear tree: π ∫ max-profile²"""
-    xs = [p[0] for p in t["xyz"]]
+    xs = t.get("axis") or [p[0] for p in t["xyz"]]
     rs = t["r"]
     lo = min(x - r for x, r in zip(xs, rs))
     hi = max(x + r for x, r in zip(xs, rs))
@@ -134,6 +134,17 @@ class TreeVol(Suite):
                     xs.append(xs[-1] + float(math.ceil(max(t["r"][i - 1], t["r"][i]) + rng.choice([0, 1, 2]))))
                 t["xyz"] = [[x0 + x, 0.0, 0.0] for x in xs]
                 out.append({"class": "far", "tree": t, "levels": [1, 2, 3, 4], "collinear": True})
+        # the straight line in any direction of space (rational unit vectors: the positions stay exact), away from the origin
+        for n in [2, 3, 4, 6]:
+            for kind in ("chain", "arms"):
+                if kind == "arms" and n < 3:
+                    continue
+                t = collinear_case(rng, kind, n)
+                u = rng.choice([(1 / 3, 2 / 3, 2 / 3), (2 / 7, 3 / 7, 6 / 7), (0.0, 0.6, 0.8), (-2 / 3, 1 / 3, 2 / 3), (0.6, 0.0, -0.8), (4 / 9, 4 / 9, 7 / 9)])
+                o = [rng.randint(-8, 8) / 2 for _ in range(3)]
+                xs = [q[0] for q in t["xyz"]]
+                t = dict(t, axis=xs, xyz=[[o[i] + x * u[i] for i in range(3)] for x in xs])
+                out.append({"class": "oblique/" + kind, "tree": t, "levels": [1, 2, 3, 4], "collinear": True})
         # the same admissible collinear trees in small units (a file in millimetres): nothing in the property depends on the unit
         for n in [2, 3, 5]:
             for unit in ([1 / 256, 1e-3] if not big else [1 / 256, 1e-3, 1 / 64, 1 / 1024, 64.0]):
@@ -169,6 +180,16 @@ class TreeVol(Suite):
 
         np.random.seed(1)
         t = gen.make_tree(case["tree"])
+        if case.get("measured_before", case["tree"]["n"] % 2 == 1):
+            # the tree is derived (a copy whose radii and positions are then replaced, as the transforms do) from a tree that was
+            # measured at every level before
+            t0 = gen.make_tree(dict(case["tree"], r=[v * 1.5 + 0.25 for v in case["tree"]["r"]]))
+            for a in case["levels"]:
+                get_volume(t0, accuracy=a)
+            d = t0.copy()
+            for k in ("x", "y", "z", "r"):
+                d.ndata[k] = t.ndata[k].copy()
+            t = d
         res = {"vol": {str(a): float(get_volume(t, accuracy=a)) for a in case["levels"]}}
         if case["collinear"]:
             res["terms"] = node_terms(case["tree"])
